@@ -18,6 +18,8 @@ type fieldRef struct {
 }
 
 type oblig struct {
+	results   []Val             // values returned on this path (ensures obligations)
+	postHeaps map[string]string // heaps at the return (ensures obligations)
 	firstRes string // result of the first pass when a rescue pass was needed
 	name   string // stable base name  <func>#<kind>.<label>@<site>
 	path   int
